@@ -1,6 +1,6 @@
 """CrossHair obligations for C14 (letter labels).  Each function is a PEP-316 contract over calls of the
 real functions; `python3-vt -m crosshair check` searches for a counterexample / confirms all paths."""
-from core.letter_id_generator import number_to_letter_id, letter_id_to_number
+from core.letter_id_generator import number_to_letter_id, letter_id_to_number, LetterIdGenerator
 
 LIMIT4 = 26 + 26 ** 2 + 26 ** 3 + 26 ** 4   # everything up to four letters
 
@@ -120,3 +120,17 @@ def generator_sequence(k: int) -> bool:
     for i in range(k + 1):
         last = g.next()
     return last == number_to_letter_id(k, True)
+
+
+def generator_positions(k: int) -> bool:
+    """
+    pre: 0 <= k < 20000
+    post: _
+    """
+    # the k-th and (k+1)-th connection names handed out by the generator are the names of positions k and k+1: no gaps, no repeats
+    g = LetterIdGenerator()
+    g.index = k
+    a = g.next()
+    b = g.next()
+    # (label(k) != label(k+1) and the way back are the obligations injective / round-trip)
+    return a == number_to_letter_id(k, True) and b == number_to_letter_id(k + 1, True)
